@@ -50,12 +50,19 @@ import (
 
 // ---------------------------------------------------------------- canonical dump of a Go value
 
+// an object is identified by its address AND its type: a struct and its
+// first field share an address.
+type giObjKey struct {
+	p uintptr
+	t reflect.Type
+}
+
 type giDumper struct {
-	ids  map[uintptr]int
+	ids  map[giObjKey]int
 	objs []any
 }
 
-func newGiDumper() *giDumper { return &giDumper{ids: map[uintptr]int{}} }
+func newGiDumper() *giDumper { return &giDumper{ids: map[giObjKey]int{}} }
 
 func giTimeIndex(t time.Time) any {
 	for i, p := range giTimes {
@@ -128,7 +135,7 @@ func (d *giDumper) val(v reflect.Value) any {
 		if v.IsNil() {
 			return []any{"nilptr"}
 		}
-		p := v.Pointer()
+		p := giObjKey{v.Pointer(), v.Type()}
 		if id, ok := d.ids[p]; ok {
 			return []any{"ptr", id}
 		}
@@ -159,7 +166,7 @@ func giDump(x any) (root any, objs []any) {
 // ---------------------------------------------------------------- projection of a record that came back
 
 func giProj(x zygo.Sexp, depth int) any {
-	if depth > 12 {
+	if depth > 64 {
 		return []any{"other", "deep"}
 	}
 	switch v := x.(type) {
@@ -707,6 +714,10 @@ func giAttempt(env *zygo.Zlisp, c *giCase) any {
 				return []any{"badresult"}
 			}
 			r, objs := giDump(giLastArg)
+			if c.Cyc {
+				// the record handed back reaches itself: it has no finite projection
+				return []any{"ok", r, objs, []any{"cyclic"}}
+			}
 			return []any{"ok", r, objs, giProj(arr.Val[0], 0)}
 		case "err":
 			if giLastArg == nil {
@@ -1569,7 +1580,8 @@ func (gg *giGen) random(n int) {
 				note = "random + wrong kind"
 			}
 		}
-		if _, cyc := g.shape(); cyc {
+		if _, cyc := g.shape(); cyc || len(g.Nodes) > 12 {
+			i-- // graphs of up to 12 records: larger ones only repeat the same positions
 			continue
 		}
 		gg.add("r", g, note)
